@@ -175,6 +175,10 @@ class GenElab:
                     invs.append({"contract": c, "check_on": rng.choice(["CALL", "CALL", "SETATTR", "ALL"]),
                                  "enabled": rng.random() > 0.1, "invalid": invalid})
             ops.append({"op": "class", "bases": bases, "dbc": dbc, "members": members, "invs": invs})
+            if dbc and rng.random() < 0.3 and all(not m["name"].startswith("__") for m in members):
+                # (not where the class defines a special method: with DBC as a base the slots of `object` count as
+                #  provided by a base, with the bare meta-class they do not - the model has the base)
+                ops[-1]["via_meta"] = True
             self.defined[nclasses] = sorted(set([m["name"] for m in members] + inherited))
             plain_members += [(nclasses, m["name"]) for m in members
                               if m["kind"] == "plain" and m["name"] in ("f", "g")
@@ -412,7 +416,8 @@ def py_op(i, op, class_names):
         inv_lines.insert(0, "@icontract.invariant(%s%s%s)" % (arg, co, en))
     bases = [class_names[b] for b in op["bases"]]
     if op["dbc"]:
-        bases.append("icontract.DBC")
+        # the base class DBC, or - the documented alternative - the meta-class itself
+        bases.append("metaclass=icontract.DBCMeta" if op.get("via_meta") else "icontract.DBC")
     name = "K%d" % i
     head = "class %s(%s):" % (name, ", ".join(bases)) if bases else "class %s:" % name
     if not body:
